@@ -615,18 +615,19 @@ pub fn generate(rs: u64, focus: &str) -> Trace {
     }
     let nthreads = if crate::gen::thorough() { 2 + g.rng.weighted(&[35, 35, 30]) } else { 2 + g.rng.weighted(&[55, 30, 15]) };
     let mut threads: Vec<Vec<Op>> = vec![vec![]; nthreads];
+    let mut park_hint = false;
     let scenario = match focus {
-        "C04" => g.rng.weighted(&[5, 5, 0, 10, 0, 10, 70, 0, 0, 0, 0, 0, 0, 0, 0, 0]),
-        "C15" => g.rng.weighted(&[5, 5, 5, 10, 0, 30, 35, 10, 0, 0, 0, 0, 0, 0, 0, 0]),
-        "C18" => g.rng.weighted(&[0, 0, 0, 0, 25, 10, 0, 0, 35, 0, 30, 0, 0, 0, 0, 0]),
-        "C09" => g.rng.weighted(&[5, 70, 0, 5, 0, 15, 0, 0, 0, 0, 0, 0, 0, 0, 5, 0]),
-        "C10" => g.rng.weighted(&[0, 0, 10, 0, 0, 20, 0, 65, 0, 0, 0, 0, 0, 0, 5, 0]),
-        "C11" => g.rng.weighted(&[0, 5, 40, 0, 0, 15, 0, 10, 0, 0, 0, 0, 0, 0, 30, 0]),
-        "C05" => g.rng.weighted(&[0, 25, 0, 25, 15, 15, 0, 0, 0, 0, 0, 0, 0, 1, 0, 20]),
-        "C12" => g.rng.weighted(&[15, 5, 0, 0, 0, 10, 0, 10, 0, 0, 0, 60, 0, 0, 0, 0]),
-        "C17" => g.rng.weighted(&[0, 10, 0, 0, 10, 15, 0, 0, 10, 40, 10, 0, 0, 0, 0, 5]),
-        "C13" => g.rng.weighted(&[10, 0, 0, 10, 0, 20, 60, 0, 0, 0, 0, 0, 0, 0, 0, 0]),
-        _ => g.rng.weighted(&[13, 13, 10, 13, 8, 12, 8, 7, 6, 4, 3, 4, 3, 1, 8, 7]),
+        "C04" => g.rng.weighted(&[5, 5, 0, 10, 0, 10, 70, 0, 0, 0, 0, 0, 0, 0, 0, 0, 5]),
+        "C15" => g.rng.weighted(&[5, 5, 5, 10, 0, 30, 35, 10, 0, 0, 0, 0, 0, 0, 0, 0, 0]),
+        "C18" => g.rng.weighted(&[0, 0, 0, 0, 25, 10, 0, 0, 35, 0, 30, 0, 0, 0, 0, 0, 15]),
+        "C09" => g.rng.weighted(&[5, 70, 0, 5, 0, 15, 0, 0, 0, 0, 0, 0, 0, 0, 5, 0, 25]),
+        "C10" => g.rng.weighted(&[0, 0, 10, 0, 0, 20, 0, 65, 0, 0, 0, 0, 0, 0, 5, 0, 10]),
+        "C11" => g.rng.weighted(&[0, 5, 40, 0, 0, 15, 0, 10, 0, 0, 0, 0, 0, 0, 30, 0, 25]),
+        "C05" => g.rng.weighted(&[0, 25, 0, 25, 15, 15, 0, 0, 0, 0, 0, 0, 0, 1, 0, 20, 15]),
+        "C12" => g.rng.weighted(&[15, 5, 0, 0, 0, 10, 0, 10, 0, 0, 0, 60, 0, 0, 0, 0, 0]),
+        "C17" => g.rng.weighted(&[0, 10, 0, 0, 10, 15, 0, 0, 10, 40, 10, 0, 0, 0, 0, 5, 15]),
+        "C13" => g.rng.weighted(&[10, 0, 0, 10, 0, 20, 60, 0, 0, 0, 0, 0, 0, 0, 0, 0, 0]),
+        _ => g.rng.weighted(&[13, 13, 10, 13, 8, 12, 8, 7, 6, 4, 3, 4, 3, 1, 8, 7, 10]),
     };
     let known: Vec<EvSpec> = g.model.events.values().cloned().collect();
     let retr: Vec<B32> = g.model.retrievable.iter().copied().collect();
@@ -1107,6 +1108,61 @@ pub fn generate(rs: u64, focus: &str) -> Trace {
                 }
             }
         }
+        16 => {
+            // ask, be overtaken inside the helper, ask again: thread 0 asks a question (holder,
+            // marker, lookup, query), is left parked inside the index layer while thread 1 completes
+            // an operation that changes the answer, and asks the same question once more. What
+            // the first call leaves behind (a memo, a cached position) must not answer the second.
+            // (`blocker=1` in the cfg line of a concurrent trace: schedule policy "park thread 0
+            // inside a helper across a complete operation of another thread")
+            park_hint = true;
+            let mut e1 = g.new_version();
+            if e1.addr().is_none() {
+                e1.kind = *g.rng.pick(&[10002u16, 0, 30023]);
+                e1.tags.retain(|t| t.first().map(|x| x != "d").unwrap_or(true));
+                if e1.kind >= 30000 {
+                    e1.tags.insert(0, vec!["d".into(), "park".into()]);
+                }
+            }
+            e1.id = g.rng.bytes32();
+            e1.at = e1.at.clamp(10, u64::MAX - 10);
+            e1.tags.push(vec!["t".into(), "parked".into()]);
+            let a = e1.addr().unwrap();
+            let holder_exists = g.model.holders(&a).iter().all(|h| h.at < e1.at) && g.model.deleted_addrs.get(&a).map_or(true, |t| *t < e1.at);
+            g_apply(&mut g, &e1);
+            ops.push(Op::Store(e1.clone()));
+            let atag = vec!["a".to_string(), format!("{}:{}:{}", a.kind, hex(&a.pk), String::from_utf8(a.d.clone()).unwrap_or_default())];
+            let mut e2 = e1.clone();
+            e2.id = g.rng.bytes32();
+            e2.at = e1.at + 1;
+            let del_a = EvSpec { id: g.rng.bytes32(), pk: a.pk, kind: 5, at: e1.at + 2, tags: vec![atag], content: vec![] };
+            let del_e = EvSpec { id: g.rng.bytes32(), pk: a.pk, kind: 5, at: e1.at + 2, tags: vec![vec!["e".into(), hex(&e1.id)]], content: vec![] };
+            let _ = holder_exists;
+            let base = QuerySpec::all_allowed();
+            let (question, change): (Op, Op) = match g.rng.below(10) {
+                0 | 1 => (Op::Holder(a.clone()), Op::Store(e2.clone())),
+                2 => (Op::Holder(a.clone()), Op::Remove(e1.id)),
+                3 => (Op::AddrDeleted(a.clone()), Op::Store(del_a.clone())),
+                4 => (Op::IsDeleted(e1.id), Op::Store(del_e.clone())),
+                5 => (Op::Get(e1.id), Op::Remove(e1.id)),
+                6 => (Op::Has(e1.id), Op::Store(e2.clone())),
+                7 => (Op::Query(QuerySpec { authors: vec![a.pk], kinds: vec![a.kind], ..base.clone() }), Op::Store(e2.clone())),
+                8 => (Op::Query(QuerySpec { tags: vec![('t', vec!["parked".to_string()])], ..base.clone() }), Op::Remove(e1.id)),
+                _ => (Op::Stats, Op::Remove(e1.id)),
+            };
+            threads[0].push(question.clone());
+            threads[0].push(question.clone());
+            if let (Op::AddrDeleted(_), true) = (&question, g.rng.chance(1, 2)) {
+                // what the deletion covers must be refused afterwards
+                threads[0].push(Op::Store(e1.clone()));
+            }
+            threads[1].push(change);
+            for t in 2..nthreads {
+                let mut e = g.new_event();
+                e.kind = 1;
+                threads[t].push(Op::Store(e));
+            }
+        }
         8 => {
             // one event stored, removed and stored again by different threads
             let e = if g.rng.chance(1, 2) { g.new_event() } else { g.new_version() };
@@ -1188,9 +1244,9 @@ pub fn generate(rs: u64, focus: &str) -> Trace {
     // the generator fixes the policy and its PRNG stream
     let sched_seed = g.rng.next();
     // (in a concurrent trace obs_level 1 means: the `y:` points are yield points too)
-    let fine = (sched_seed >> 17) % 2 == 0;
+    let fine = park_hint || (sched_seed >> 17) % 2 == 0;
     Trace {
-        cfg: Cfg { prop: "C14".into(), mode: Mode::Conc, seed: sched_seed, blocker: false, extra_tables: 0, obs_level: fine as u8, drain: false },
+        cfg: Cfg { prop: "C14".into(), mode: Mode::Conc, seed: sched_seed, blocker: park_hint, extra_tables: 0, obs_level: fine as u8, drain: false },
         ops,
         threads,
         schedule: vec![],
@@ -1360,8 +1416,14 @@ pub fn run_conc_full(trace: &Trace, scratch: PathBuf, verbose: bool, known_open:
         Policy::Replay(trace.schedule.clone(), 0)
     } else {
         let mut r = Rng::new(trace.cfg.seed);
-        let which = r.below(3);
-        if which == 0 {
+        let which = if trace.cfg.blocker { 3 } else { r.below(3) };
+        if which == 3 {
+            // the trace asks for it: thread 0 parked at one of its first points inside a helper
+            // (two runs in three), or at one of its first yields
+            let inside = trace.cfg.obs_level == 1 && r.chance(2, 3);
+            let k = 1 + if inside { r.below(3) } else { r.below(8) };
+            Policy::ParkAcross(r, 0, k, 0, 0, 0, inside)
+        } else if which == 0 {
             Policy::Uniform(r)
         } else if which == 2 {
             // the victim: preferably a thread that starts with a reader operation
